@@ -322,6 +322,13 @@ theorem unknown_unit_refused {α : Type} [Add α] [Sub α] [Mul α] [Div α] [Of
 
 example : "XXXX" ∉ allNames lisTable := by decide +kernel
 
+/-- … in particular an unknown unit **to itself** is refused by the module-level `convert` (the first lookup fails); only
+`EngVal` short-cuts equal units (`engval_same_units`). -/
+theorem unknown_unit_to_itself_refused {α : Type} [Add α] [Sub α] [Mul α] [Div α] [OfNat α 0]
+    (t : List (LisCat α)) (v : Option α) (u : String) (h : u ∉ allNames t) :
+    lisConvert t v u u = .error .lisUnknownUnit :=
+  unknown_unit_refused t v u u (Or.inl h)
+
 /-- **Category mismatch ⇒ refused**: two known units of different categories never give a number. The refusal is
 the `ExceptionUnitsNoUnitInCategory` raised by `unitConvertor(u_2)` on the category of `u_1` — the path the code takes
 (the `ExceptionUnitsMissmatchedCategory` of the docstring is constructed but not raised). -/
@@ -420,7 +427,61 @@ theorem engval_forms_agree (t : List (LisCat α)) (e : EngVal α) (u : String) :
   · simp only [bne_iff_ne, ne_eq, h, not_false_eq_true, if_true, beq_iff_eq, if_false]
     cases lisConvert t (some e.value) e.uom u <;> simp [Except.map]
 
+/-! ### History independence of one `EngVal` object
+
+In the model the state of the object *is* `(value, uom)`; the theorems below spell out what that means for the mutable
+Python object and are what the HISTORY streams of the harness compare it with: whatever sequence of operations was
+applied, every observable is the observable of a fresh object built from the final `(value, uom)`. -/
+
+/-- reading operations do not change the object -/
+theorem engval_observe_keeps_state (t : List (LisCat α)) (e : EngVal α) : e.step t .observe = e := rfl
+
+/-- a refused in-place conversion leaves the object as it was -/
+theorem engval_refused_convert_keeps_state (t : List (LisCat α)) (e : EngVal α) (u : String) (err : Err)
+    (h : e.convert t u = .error err) : e.step t (.convert u) = e := by
+  simp [EngVal.step, h]
+
+/-- **History independence**: after any history the observables are those of a fresh `EngVal(value, uom)` made from
+the final value and units. -/
+theorem engval_history (t : List (LisCat α)) (e : EngVal α) (ops : List (EngOp α)) (u : String) :
+    (e.run t ops).getInUnits t u = (EngVal.mk (e.run t ops).value (e.run t ops).uom).getInUnits t u ∧
+    (e.run t ops).convert t u = (EngVal.mk (e.run t ops).value (e.run t ops).uom).convert t u ∧
+    (e.run t ops).newEngValInUnits t u = (EngVal.mk (e.run t ops).value (e.run t ops).uom).newEngValInUnits t u :=
+  ⟨rfl, rfl, rfl⟩
+
+/-- two objects that reached the same value and units by different histories are indistinguishable -/
+theorem engval_history_determined (t : List (LisCat α)) (e₁ e₂ : EngVal α) (ops₁ ops₂ : List (EngOp α))
+    (hv : (e₁.run t ops₁).value = (e₂.run t ops₂).value) (hu : (e₁.run t ops₁).uom = (e₂.run t ops₂).uom) (u : String) :
+    (e₁.run t ops₁).getInUnits t u = (e₂.run t ops₂).getInUnits t u ∧
+    (e₁.run t ops₁).convert t u = (e₂.run t ops₂).convert t u := by
+  have : e₁.run t ops₁ = e₂.run t ops₂ := by
+    generalize e₁.run t ops₁ = a at *
+    generalize e₂.run t ops₂ = b at *
+    cases a; cases b; simp_all
+  rw [this]; exact ⟨rfl, rfl⟩
+
+/-- the history is the fold of single steps (each depends on the previous *state* only) -/
+theorem engval_run_append (t : List (LisCat α)) (e : EngVal α) (ops₁ ops₂ : List (EngOp α)) :
+    e.run t (ops₁ ++ ops₂) = (e.run t ops₁).run t ops₂ := by
+  simp [EngVal.run, List.foldl_append]
+
 end engval
+
+/-- `*=` by a real then reading in other units = reading then scaling, for offset-free units of one category (ℚ): the
+in-place arithmetic commutes with the conversion, so a stale reading would be visibly wrong. -/
+theorem engval_imul_then_get : ∀ k ∈ lisTable, ∀ x ∈ k.units, ∀ y ∈ k.units, x.offs = none → y.offs = none →
+    ∀ v r : ℚ, ∃ w, (⟨v, x.name⟩ : EngVal ℚ).getInUnits lisTable y.name = .ok w ∧
+      (((⟨v, x.name⟩ : EngVal ℚ).step lisTable (.imulReal r)).getInUnits lisTable y.name) = .ok (w * r) := by
+  intro k hk x hx y hy hxo hyo v r
+  have hy0 := lis_mult_ne_zero k hk y hy
+  by_cases hn : y.name = x.name
+  · refine ⟨v, by simp [EngVal.getInUnits, hn], by simp [EngVal.getInUnits, EngVal.step, hn]⟩
+  · refine ⟨x.convert (some v) y, ?_, ?_⟩
+    · simp only [EngVal.getInUnits, beq_iff_eq, hn, if_false]
+      exact lis_convert_known lisTable lisTable_wf k hk x y hx hy _
+    · simp only [EngVal.getInUnits, EngVal.step, beq_iff_eq, hn, if_false]
+      rw [lis_convert_known lisTable lisTable_wf k hk x y hx hy, lisUnit_convert_eq, lisUnit_convert_eq, hxo, hyo]
+      congr 1; simp only [Option.getD_none]; field_simp; ring
 
 /-- for a unit of the table the shortcut for equal units *is* the conversion (over ℚ) -/
 theorem engval_shortcut_is_conversion : ∀ k ∈ lisTable, ∀ x ∈ k.units, ∀ v : ℚ,
